@@ -28,6 +28,7 @@ EXPLANATION = ("a: in search_recursive_with_execution (DFS) every assignment of 
                "linear scan when the index proposes nothing.")
 EXPLANATION += " e (added): from every point where DFS records a solution, assuming depth > 0, rollback_undo_frame is unreachable before commit_undo_frame (a sub-goal's derivation stays in the facts for the rule above it; alternatives are rolled back at the root only)."
 EXPLANATION += ' f (added): between the rule list and add_candidate_rule there is no guard on search state (self.path, solutions, visited): every rule that passes the structural test is a candidate.'
+EXPLANATION += ' g (added): no search function returns false because the goal is a member of a set kept on the searcher (a failure recorded at one depth is not final for another).'
 FLOORS = {"true_returns": 4, "emitted_tokens": 12, "parsers": 2}
 
 DFS = "backward::search::DepthFirstSearch"
@@ -45,6 +46,30 @@ def run(P, R, tier, cfg):
     _fallback(P, R)
     _subgoal_proofs_stay(P, R, fn)
     _candidates_complete(P, R)
+    _no_negative_cache(P, R)
+
+
+def _no_negative_cache(P, R):
+    """g. Whether a sub-goal fails depends on the depth it is met at (and on the facts at that moment): a failure beyond the depth
+    limit on a long branch says nothing about the same sub-goal met again higher up. A `return false` taken because the goal
+    sits in a set kept on the searcher (`dead_ends`, `failed`, `visited`) makes a goal with a derivation inside the bound
+    unprovable."""
+    n = 0
+    for fn in sorted(P.fns.values(), key=lambda f: f.name):
+        if fn.impl_self not in (DFS, BFS) or fn.kind == "closure" or fn.locals[0][0] != "bool":
+            continue
+        for (bb, sym) in A.returned_syms(fn):
+            if strip(sym) != ("const", "bool", False):
+                continue
+            for g in A.guards_of(fn, bb):
+                c = strip(g["cond"])
+                if c[0] == "call" and c[1].endswith(("HashSet::contains", "HashMap::contains_key", "BTreeSet::contains")) and g["polarity"] is True \
+                        and any(x[0] == "field" and strip(x[1])[0] == "param" and strip(x[1])[1] == 1 and x[2] not in ("path",) for x in walk(c[2][0])):
+                    n += 1
+                    R.violate("g", "negative-verdict-from-cache:%s" % fn.short_name,
+                              "%s answers `false` because the goal is found in `%s`: a failure recorded at one depth (possibly only the depth limit) is replayed for the same sub-goal met at a shallower depth, where it has a derivation inside the bound" % (fn.short_name, fmt_sym(c[2][0], maxdepth=4)), fn, fn.term(g["sw"])[0])
+    if n == 0:
+        R.hold("g", "no search function returns false on the strength of a set of earlier failures")
 
 
 def _candidates_complete(P, R):
